@@ -1,6 +1,6 @@
 (* C08 - embedded static content and names are exact.  Theorems only. *)
 From Coq Require Import Lia.
-From Ructe Require Import Nom Utf8 Md5 Emit Tables Static RustLit RustLitProofs StaticProofs.
+From Ructe Require Import Nom Utf8 Md5 Emit Tables Static RustLit RustLitProofs StaticProofs Build ScriptNI WalkNames.
 Local Open Scope list_scope.
 
 (* ByteString Display: for all byte strings the emitted b"..." literal denotes exactly the
@@ -42,6 +42,44 @@ Section C08.
   Proof. reflexivity. Qed.
 End C08.
 
+(* add_files_as: the recursive walk is one add_file_as per file below the directory, in walk order
+   (`rels`: the relative paths, sub-directories followed at any depth), each read from
+   directory + "/" + relative path and published under  prefix + "/" + relative path  when the prefix
+   is not empty -- whatever the prefix ends in -- and under the relative path alone when it is
+   (`pfx`); each appends one item of the shape above carrying that name.  Stated for the call as a
+   build script makes it (the model's fuel, the depth of the whole input tree, is enough). *)
+Theorem add_files_as_publishes_prefix_slash_path : forall (uni_esc uni_alnum : N -> bool) mm tree base s rel to s',
+  do_scall uni_esc uni_alnum mm tree base s (SAddFilesAs rel to) = Some s' ->
+  exists es, find_node tree (split_path rel []) = Some (Dir es) /\
+    (named (S (dmax es)) es = true ->
+     exists l, st s' = fold_left (publish uni_esc uni_alnum mm) l (st s) /\
+               src (st s') = src (st s) ++ flat_map (item_of uni_esc uni_alnum mm) l /\
+               map snd l = map (pfx to) (rels (S (dmax es)) es) /\
+               map fst l = map (fun r => path_for base rel ++ [47%N] ++ r) (rels (S (dmax es)) es)).
+Proof. exact script_add_files_as_spec. Qed.
+
+(* the same for the function itself, for any fuel that covers the directory *)
+Theorem add_files_as_is_a_walk : forall (uni_esc uni_alnum : N -> bool) mm fuel s dir to es,
+  S (dmax es) <= fuel -> named (S (dmax es)) es = true ->
+  exists l, st (add_files_as uni_esc uni_alnum mm fuel s dir to es) = fold_left (publish uni_esc uni_alnum mm) l (st s) /\
+            src (st (add_files_as uni_esc uni_alnum mm fuel s dir to es)) = src (st s) ++ flat_map (item_of uni_esc uni_alnum mm) l /\
+            map snd l = map (pfx to) (rels (S (dmax es)) es) /\
+            map fst l = map (fun r => dir ++ [47%N] ++ r) (rels (S (dmax es)) es).
+Proof. exact add_files_as_spec. Qed.
+
+(* the rule on a concrete tree: a file, a sub-directory with a file and a deeper one; the prefixes
+   "", "lib", and "lib/" (which keeps its own slash: lib//app.js) *)
+Example a_walk_and_its_names :
+  let es := [(b "app.js", File (b "1")); (b "sub", Dir [(b "deep.css", File []); (b "more", Dir [(b "x.txt", File (b "x"))])])] in
+  named (S (dmax es)) es = true /\
+  rels (S (dmax es)) es = [b "app.js"; b "sub/deep.css"; b "sub/more/x.txt"] /\
+  map (pfx []) (rels (S (dmax es)) es) = [b "app.js"; b "sub/deep.css"; b "sub/more/x.txt"] /\
+  map (pfx (b "lib")) (rels (S (dmax es)) es) = [b "lib/app.js"; b "lib/sub/deep.css"; b "lib/sub/more/x.txt"] /\
+  map (pfx (b "lib/")) (rels (S (dmax es)) es) = [b "lib//app.js"; b "lib//sub/deep.css"; b "lib//sub/more/x.txt"] /\
+  map snd (walk (S (dmax es)) (b "st") (b "lib/") es) = [b "lib//app.js"; b "lib//sub/deep.css"; b "lib//sub/more/x.txt"] /\
+  map fst (walk (S (dmax es)) (b "st") (b "lib/") es) = [b "st/app.js"; b "st/sub/deep.css"; b "st/sub/more/x.txt"].
+Proof. vm_compute. repeat split; reflexivity. Qed.
+
 (* the `name: "{url_name}"` of the pinned commit was not a literal for the name: the witness lexes
    to a different string (and leaves garbage behind) *)
 Lemma legacy_name_literal_refuted :
@@ -58,3 +96,6 @@ Redirect "assumptions/C08.path_literal_roundtrip" Print Assumptions path_literal
 Redirect "assumptions/C08.name_literal_roundtrip" Print Assumptions name_literal_roundtrip.
 Redirect "assumptions/C08.item_shape" Print Assumptions item_shape.
 Redirect "assumptions/C08.legacy_name_literal_refuted" Print Assumptions legacy_name_literal_refuted.
+Redirect "assumptions/C08.add_files_as_publishes_prefix_slash_path" Print Assumptions add_files_as_publishes_prefix_slash_path.
+Redirect "assumptions/C08.add_files_as_is_a_walk" Print Assumptions add_files_as_is_a_walk.
+Redirect "assumptions/C08.a_walk_and_its_names" Print Assumptions a_walk_and_its_names.
